@@ -360,7 +360,9 @@ EvalArm(a, rho, selfs) ==
   IF a.a = "shape"
     THEN LET v == EvalE(a.x, rho, selfs)
          IN IF Bad(v) THEN v ELSE IF IsCPrim(v) THEN [t |-> "arm", a |-> "exact", v |-> v]
-            ELSE IF v.t = "con" THEN [t |-> "arm", a |-> "sub", c |-> v]       \* a named constraint as an alternative: its own arms count
+            (* a named constraint as an alternative: its own arms count.  The placeholder of a constraint that *)
+            (* mentions itself (no arms yet) is recursion: Constraint.tla's subject, undescribed here           *)
+            ELSE IF v.t = "con" THEN (IF v.arms = << >> THEN Unm ELSE [t |-> "arm", a |-> "sub", c |-> v])
             ELSE Unm
     ELSE LET lo == IF a.lo = << >> THEN Null ELSE EvalE(a.lo[1], rho, selfs)
              hi == IF a.hi = << >> THEN Null ELSE EvalE(a.hi[1], rho, selfs)
@@ -377,7 +379,7 @@ ArmHolds(v, arm) ==
   ELSE v.t = arm.v.t /\ v = arm.v
 (* does value v pass what was written after `::` (evaluated to c)?  "ok" / "fail" / "unm" *)
 Passes(v, c) ==
-  IF c.t = "con" THEN (IF c.arms = << >> THEN "ok"         \* the placeholder a constraint statement pre-binds: admits anything
+  IF c.t = "con" THEN (IF c.arms = << >> THEN "unm"        \* the placeholder a constraint statement pre-binds: recursion, see EvalArm
                        ELSE IF ~IsCPrim(v) THEN "unm"
                        ELSE IF \E j \in 1..Len(c.arms) : ArmHolds(v, c.arms[j]) THEN "ok" ELSE "fail")
   ELSE IF IsCPrim(c) /\ c.t = v.t THEN "ok"        \* an example of the same primitive type: nothing to check
